@@ -2334,18 +2334,12 @@ impl Ord for Element {
         if let (Some(name1), Some(name2)) = (self.item_name(), other.item_name()) {
             // both items have a name - try to decompose the name into a base and an index
             // this allows for a more natural sorting of indexed items (e.g. "item2" < "item10")
-            if let (Some((base1, idx1)), Some((base2, idx2))) =
-                (decompose_item_name(&name1), decompose_item_name(&name2))
-            {
-                if base1 == base2 {
-                    let result = idx1.cmp(&idx2);
-                    if result != Ordering::Equal {
-                        return result;
-                    }
-                }
-            }
-            // if the decomposition fails, then just compare the full item names
-            let result = name1.cmp(&name2);
+            // The names are compared by the key (base, index, full name). Comparing decomposed names with each other, but
+            // falling back to the full names otherwise is not a total order (a10 > a2 > a1b > a10), which makes the result
+            // of sorting depend on the initial order.
+            let (base1, idx1) = decompose_item_name(&name1).map_or((name1.clone(), None), |(base, idx)| (base, Some(idx)));
+            let (base2, idx2) = decompose_item_name(&name2).map_or((name2.clone(), None), |(base, idx)| (base, Some(idx)));
+            let result = base1.cmp(&base2).then(idx1.cmp(&idx2)).then(name1.cmp(&name2));
             if result != Ordering::Equal {
                 return result;
             }
